@@ -10,9 +10,9 @@ pkgdir=$(python3 -c "import json,sys;print(json.load(open('$seed/meta.json')).ge
 run=$(python3 -c "import json,sys;print(json.load(open('$seed/meta.json')).get('demo_run',''))")
 cp "$seed/demo_test.go" "$pkgdir/zz_seed_demo_test.go"
 export GOFLAGS= GOPROXY=off
-echo "== demo WITHOUT patch (must pass)"; (cd "$pkgdir" && go test -count=1 -run 'Seed|C[0-9][0-9]' . 2>&1 | tail -3); r0=${PIPESTATUS[0]}
+echo "== demo WITHOUT patch (must pass)"; (cd "$pkgdir" && go test -count=1 -run 'Seed|Demo|C[0-9][0-9]' . 2>&1 | tail -3); r0=${PIPESTATUS[0]}
 git apply "$seed/patch.diff" || { echo "PATCH DOES NOT APPLY"; exit 3; }
 echo "== build"; go build ./... 2>&1 | tail -3
-echo "== demo WITH patch (must fail)"; (cd "$pkgdir" && go test -count=1 -run 'Seed|C[0-9][0-9]' . 2>&1 | tail -5)
+echo "== demo WITH patch (must fail)"; (cd "$pkgdir" && go test -count=1 -run 'Seed|Demo|C[0-9][0-9]' . 2>&1 | tail -5)
 echo "== full suite WITH patch (demo excluded)"; rm "$pkgdir/zz_seed_demo_test.go"; go test -count=1 ./... 2>&1 | grep -v "^ok\|no test files" | head -12
 echo "== done"
